@@ -3,12 +3,19 @@
 shifts, narrowing casts, panicking macros.  C01's rendering clause is not modelled semantically; instead
 the list of such sites is regenerated on every run and `Props/C01.render_sites_empty` requires it to be
 empty: rendering code that only matches, compares and `write!`s cannot panic (a `fmt::Error` can only
-come from the writer).  A change that introduces such a construct breaks that obligation."""
+come from the writer).  A change that introduces such a construct breaks that obligation.
+The scan above is a black list; `calls` is the complementary white list: EVERY callee of the rendering code
+(functions, methods, macros; enum constructors and patterns excluded) is listed, and
+`Props/C01.render_calls_allowed` requires the list to stay inside the reviewed set of non-panicking callees,
+so a call the black list does not know (`split_at`, `repeat`, `rem_euclid`, `borrow_mut`, a helper function
+of the crate ...) breaks a named obligation."""
 import glob
 import os
 import re
 from extractlib import *
 
+# every callee inside a rendering impl: `name(`, `path::name(`, `.method(`, `macro!(`
+CALL = re.compile(r'(\.?)\s*\b([A-Za-z_][\w:]*)\s*(!?)\s*\(')
 IMPL = re.compile(r'impl\s+(?:std::)?(?:fmt::)?(Display|Debug)\s+for\s+(\w+)')
 RISKY = re.compile(r'\w\s*\[|\.unwrap\(\)|\.expect\(|unreachable!|panic!|todo!|unimplemented!|assert|'
                    r'[\w\)]\s*[-+*/%]\s*[\w\(]|[-+*/%]=|\bas\s+[ui](8|16|32|64|size)\b|<<|>>|\.pow\(|\.abs\(\)')
@@ -24,7 +31,7 @@ def gen_render(repo):
     files = sorted(glob.glob(base + "/*.rs") + glob.glob(base + "/bds/*.rs"))
     if len(files) < 20:
         raise ExtractError("decode sources not found")
-    sites, impls = [], 0
+    sites, impls, calls = [], 0, set()
     for f in files:
         src = strip(open(f, encoding="utf-8").read())
         for m in IMPL.finditer(src):
@@ -44,6 +51,11 @@ def gen_render(repo):
             if depth != 0:
                 raise ExtractError(f"{f}: unbalanced braces in impl {m.group(2)}")
             impls += 1
+            for c in CALL.finditer(src[i:j + 1]):
+                last = c.group(2).split("::")[-1]
+                if last[:1].isupper():
+                    continue        # enum variant / tuple-struct constructor or pattern: cannot panic
+                calls.add(("." if c.group(1) else "") + c.group(2) + c.group(3))
             for line in src[i:j + 1].split("\n"):
                 if RISKY.search(line):
                     txt = " ".join(line.split()).replace("\\", "\\\\").replace('"', "'")
@@ -55,6 +67,8 @@ def gen_render(repo):
             f"/-- number of `impl fmt::Display/Debug` blocks scanned -/\ndef renderImpls : Nat := {impls}\n"
             "/-- panic-prone constructs found inside them (file: impl: source line) -/\n"
             f"def riskySites : List String := [{body}]\n"
+            "/-- every function, method and macro called inside them (constructors and patterns excluded) -/\n"
+            f"def calls : List String := [{', '.join(chr(34) + c + chr(34) for c in sorted(calls))}]\n"
             "end Rs1090.Gen.Render\n")
 
 
